@@ -78,3 +78,34 @@ check("C11", "exploration", "Hypothesis service schemas + PRNG-drawn calls over 
       "Generated and fixed service definitions are compiled; a subclass of the generated base overrides a drawn subset of methods with recording handlers (some raising GRPCError); calls of every cardinality with drawn request values, stream lengths 0-4 and None/set stub- and call-level options go through the generated stub over ChannelFor on the controlled loop. Exactly the same-named handler must run once with the sent requests, the caller must get the handler's responses, UNIMPLEMENTED / handler errors must surface, and the kwargs reaching channel.request() must follow per-call-over-stub precedence.",
       "Services and calls are sampled; the loop is single-schedule (FIFO) with a virtual clock, so a hang is a deterministic deadlock and never a wall-clock verdict.",
       "DESIGN.md 3/C11")
+
+# ---- additions (round 3 of the seeded changes): appended to the texts above
+_HIST = (" Histories over two schemas in a pristine interpreter (vf/props/_seq.py, vf/fresh.py): short sequences of operations on the classes "
+         "of ks.proto and of ks_twin.proto (same message / field names and numbers, different cardinalities, enum types, value kinds, "
+         "colliding JSON keys), each step judged by a history-independent oracle, evaluated in a forked child of a zygote that has "
+         "imported but never used the classes - state leaking between classes or calls (coarse caches, memoised sizes, lazily filled tables) "
+         "shows up as a failure that depends on the earlier steps.")
+_MORE = {
+    "C01": _HIST + " The sign of zero is compared wherever a zero is transmitted (repeated / map / optional / oneof).",
+    "C02": _HIST + " Later occurrences of singular scalar fields (often carrying the default value) are appended and must win.",
+    "C03": " A fixed matrix (every pooled field name x 8 labels) and packages google.type / google.rpc / googlex are validated by name.",
+    "C04": _HIST,
+    "C05": _HIST + " A fixed matrix of one message per pooled field name checks key naming in both directions.",
+    "C06": " Emitted records are compared field number by field number (and recursively) with the fields the value holds, next to selected oneof members and optional defaults; values read before they are assigned are covered.",
+    "C07": " The same interpreter runs on the pydantic_dataclasses variant of the corpus and on a message whose oneof groups have a single member.",
+    "C08": " Unknown records carry non-minimal (padded) tag / length / value varints, and a second payload is decoded into the same instance.",
+    "C09": _HIST + " Every message is observed a second time after an in-place mutation (append / map insert / nested assignment), and dumped into a sink that keeps the chunks it is handed.",
+    "C10": " Writer instances that were sized / dumped while empty and then filled in place are part of the streams.",
+    "C11": " The fixed service and the grammar services are also generated with pydantic_dataclasses and typing.310; well-known-type values are taken from the library the variant's message fields use.",
+    "C12": " Senders that close the channel themselves through send_from(..., close=True) (no separate closer) are part of both targets.",
+    "C13": " Pairs where the target package is referred to by nothing but an rpc input / output type, and fields named like the import alias of the package they refer to, are enumerated too.",
+    "C14": _HIST + " Chains of copies of payloads beyond 1 KiB / 64 KiB, each copy mutated before the next is taken.",
+    "C15": _HIST + " RFC 3339 input with a UTC offset other than Z must give the same instant.",
+    "C16": _HIST + " dump_varint is also driven into a sink that keeps the chunks it is handed.",
+    "C17": " Malformed content inside (skipped) groups - wire types 6/7, unterminated or wrongly closed groups, overrunning lengths, also nested - must be rejected wherever the reference rejects it.",
+    "C18": " Request / reply classes of generated services must come from the library the variant's message fields use; enum values are passed as members and as bare numbers, including numbers the enum does not define.",
+    "C19": _HIST,
+    "C20": _HIST + " Mutation attempts include special-method names (__eq__, __int__, __hash__, __members__).",
+}
+for _pid, _t in _MORE.items():
+    CHECKS[_pid]["text"] += _t
